@@ -145,15 +145,13 @@ Example C18_content_length_under_witness_rejected :
 Proof. exact content_length_under_witness_rejected. Qed.
 Print Assumptions C18_content_length_under_witness_rejected.
 
-(** A valid frame sequence [fs] followed by the beginning [part] of one more frame [f0], cut
-    anywhere inside it (type, length or payload; DATA or ignorable frame), and then the end of
-    the stream -- FIN, or a stream error that does not accompany data.  For every short-read
-    schedule and every buffer sequence: the reads return a prefix of the DATA payloads; the
-    stream is NEVER ended by a clean io.EOF; after FIN the error is io.ErrUnexpectedEOF and the
-    connection is closed with H3_FRAME_ERROR (RFC 9114, 7.1); no error, no close; and with
-    enough non-empty buffers the error is reached.  (True of the repaired ParseNext / Stream.Read;
-    on the unrepaired code this was the finding h3/truncated-frame-clean-eof.) *)
-Theorem C18_truncation_reported :
+(** TRUNCATED STREAMS: a valid frame sequence [fs] followed by the beginning [part] of one more
+    frame [f0], cut anywhere inside it (type, length or payload; DATA or ignorable frame), then
+    the end of the stream with terminal error [fin] (FIN = io.EOF, or a stream error that does
+    not accompany data).  For every short-read schedule and buffer sequence the reads return a
+    prefix of the DATA payloads and then exactly [fin]; the connection is left alone; and [fin]
+    is reached. *)
+Theorem C18_truncation_outcome :
   forall (fs : list wframe) (f0 : wframe) (part rest : list Z)
          (sched : list Z) (fin : err) (fw : bool) (maxHdr : Z) (bufs : list Z),
   Forall wf_frame fs -> wf_frame f0 -> enc f0 = part ++ rest -> part <> [] -> rest <> [] ->
@@ -161,55 +159,88 @@ Theorem C18_truncation_reported :
   exists out e x' tl,
     stream_reads (new_stream (mkSrc (wire fs ++ part) sched fin fw) maxHdr) bufs = (out, e, x') /\
     payload (fs ++ [f0]) = out ++ tl /\
-    e <> Some EEOF /\
-    (e = None -> x_closed x' = None) /\
-    (fin = EEOF -> e = None \/ (e = Some EUnexpectedEOF /\ x_closed x' = Some h3ErrCodeFrameError)) /\
-    (all_pos bufs -> (length (wire fs ++ part) < length bufs)%nat -> e <> None).
-Proof. exact truncation_reported. Qed.
-Print Assumptions C18_truncation_reported.
+    (e = None \/ e = Some fin) /\ x_closed x' = None /\
+    (all_pos bufs -> (length (wire fs ++ part) < length bufs)%nat -> e = Some fin).
+Proof. exact truncation_outcome. Qed.
+Print Assumptions C18_truncation_outcome.
 
-(** The same over ANY prefix [d] of the wire image of a valid frame sequence, ended by FIN: a
-    clean io.EOF is returned only when the cut is at a frame boundary (and then exactly the
-    payloads of the complete frames were delivered); otherwise io.ErrUnexpectedEOF + H3_FRAME_ERROR. *)
-Theorem C18_truncation_reported_prefix :
+(** ... so the part of "truncation is reported" that HOLDS: a stream ERROR inside a frame is
+    reported to the reader as that error, never as a clean io.EOF ... *)
+Theorem C18_truncation_reported_stream_error :
+  forall (fs : list wframe) (f0 : wframe) (part rest : list Z) (sched : list Z) (a : Z) (maxHdr : Z) (bufs : list Z),
+  Forall wf_frame fs -> wf_frame f0 -> enc f0 = part ++ rest -> part <> [] -> rest <> [] ->
+  exists out e x' tl,
+    stream_reads (new_stream (mkSrc (wire fs ++ part) sched (EStream a) false) maxHdr) bufs = (out, e, x') /\
+    payload (fs ++ [f0]) = out ++ tl /\
+    (e = None \/ e = Some (EStream a)) /\ e <> Some EEOF /\
+    (all_pos bufs -> (length (wire fs ++ part) < length bufs)%nat -> e = Some (EStream a)).
+Proof. exact truncation_stream_error_reported. Qed.
+Print Assumptions C18_truncation_reported_stream_error.
+
+(** ... and, with a Content-Length, WHATEVER the stream does (cut anywhere, garbage, reset): a
+    clean io.EOF comes out of the body only after at least the declared number of bytes -- a frame
+    cut short by FIN that loses body bytes is then reported by the body check (ErrUnexpectedEOF,
+    C18_content_length_under). *)
+Theorem C18_content_length_eof_only_when_complete :
+  forall (x : stream) (cl : Z) (bufs : list Z) (out : list Z) (b' : body),
+  0 <= cl -> body_reads (new_body x cl false) bufs = (out, Some EEOF, b') -> cl <= zlen out.
+Proof. exact content_length_eof_only_when_complete. Qed.
+Print Assumptions C18_content_length_eof_only_when_complete.
+
+(** FINDING h3/truncated-frame-clean-eof (open; the repair fixes/not-applied/C18-truncated-frame.patch
+    is pinned by the baseline test TestHTTPDeadlines/write_deadline): without a Content-Length a
+    frame cut short by FIN is NOT reported.  Refutation witness of "C18_truncation_reported" on
+    the faithful model: a DATA frame announcing 100 bytes, 40 of them, FIN => the reader gets the
+    40 bytes and a clean io.EOF, nothing is closed, 60 bytes are still owed by the frame ... *)
+Theorem C18_truncation_reported_refuted :
+  wf_frame trunc_witness_frame /\
+  enc trunc_witness_frame = ([0; 64; 100] ++ repeat 7 40) ++ repeat 7 60 /\
+  exists x', stream_reads (new_stream (mkSrc ([0; 64; 100] ++ repeat 7 40) [] EEOF false) 1000) [64; 64; 64]
+             = (repeat 7 40, Some EEOF, x') /\ x_closed x' = None /\ x_rem x' = 60.
+Proof. exact truncation_reported_witness. Qed.
+Print Assumptions C18_truncation_reported_refuted.
+
+(** ... and it is so at EVERY cut inside a frame: after FIN the reader sees a clean io.EOF. *)
+Theorem C18_truncation_fin_is_clean_eof :
+  forall (fs : list wframe) (f0 : wframe) (part rest : list Z) (sched : list Z) (fw : bool) (maxHdr : Z) (bufs : list Z),
+  Forall wf_frame fs -> wf_frame f0 -> enc f0 = part ++ rest -> part <> [] -> rest <> [] ->
+  all_pos bufs -> (length (wire fs ++ part) < length bufs)%nat ->
+  exists out x' tl,
+    stream_reads (new_stream (mkSrc (wire fs ++ part) sched EEOF fw) maxHdr) bufs = (out, Some EEOF, x') /\
+    payload (fs ++ [f0]) = out ++ tl /\ x_closed x' = None.
+Proof. exact truncation_fin_is_clean_eof. Qed.
+Print Assumptions C18_truncation_fin_is_clean_eof.
+
+(** What does hold for ANY prefix [d] of the wire image of a valid frame sequence ended by FIN:
+    never wrong bytes, never a spurious error -- a prefix of the payloads, then a clean EOF. *)
+Theorem C18_truncation_prefix_outcome :
   forall (fs : list wframe) (d suf : list Z) (sched : list Z) (fw : bool) (maxHdr : Z) (bufs : list Z),
   Forall wf_frame fs -> wire fs = d ++ suf ->
   exists out e x' tl,
     stream_reads (new_stream (mkSrc d sched EEOF fw) maxHdr) bufs = (out, e, x') /\
     payload fs = out ++ tl /\
-    (e = None \/
-     (e = Some EEOF /\ x_closed x' = None /\ exists fs1 fs2, fs = fs1 ++ fs2 /\ d = wire fs1 /\ out = payload fs1) \/
-     (e = Some EUnexpectedEOF /\ x_closed x' = Some h3ErrCodeFrameError)) /\
-    (all_pos bufs -> (length d < length bufs)%nat -> e <> None).
-Proof. exact truncation_reported_prefix. Qed.
-Print Assumptions C18_truncation_reported_prefix.
+    (e = None \/ e = Some EEOF) /\ x_closed x' = None /\
+    (all_pos bufs -> (length d < length bufs)%nat -> e = Some EEOF).
+Proof. exact truncation_prefix_outcome. Qed.
+Print Assumptions C18_truncation_prefix_outcome.
 
 Theorem C18_frame_error_code : h3ErrCodeFrameError = 262.
 Proof. reflexivity. Qed.
 Print Assumptions C18_frame_error_code.
 
-(** Non-vacuity: the example sequence cut 1 byte into the payload of its last DATA frame, and
-    cut inside the 2-byte type field of its first DATA frame. *)
+(** Non-vacuity: the example sequence cut 1 byte into the payload of its last DATA frame (FIN:
+    clean EOF after [1;2;3;4]; stream error: the error), and cut inside a 2-byte type field. *)
 Example C18_example_truncated :
   (let '(out, e, x') := stream_reads (new_stream (mkSrc (firstn 18 (wire example_frames)) [1; 2; 1] EEOF true) 64)
                                     [3; 1; 4096; 7; 7] in
-   out = [1; 2; 3; 4] /\ e = Some EUnexpectedEOF /\ x_closed x' = Some 262) /\
+   out = [1; 2; 3; 4] /\ e = Some EEOF /\ x_closed x' = None) /\
+  (let '(out, e, x') := stream_reads (new_stream (mkSrc (firstn 18 (wire example_frames)) [] (EStream 537) false) 64)
+                                    [3; 1; 4096; 7; 7] in
+   out = [1; 2; 3; 4] /\ e = Some (EStream 537)) /\
   (let '(out, e, x') := stream_reads (new_stream (mkSrc (firstn 5 (wire example_frames)) [] EEOF false) 64) [10; 10] in
-   out = [] /\ e = Some EUnexpectedEOF /\ x_closed x' = Some 262) /\
-  (let '(out, e, x') := stream_reads (new_stream (mkSrc (firstn 10 (wire example_frames)) [] EEOF false) 64) [10; 10; 10] in
-   out = [1; 2; 3] /\ e = Some EEOF /\ x_closed x' = None).
+   out = [] /\ e = Some EEOF /\ x_closed x' = None).
 Proof. vm_compute. auto 10. Qed.
 Print Assumptions C18_example_truncated.
-
-(** SETTINGS: a payload of (identifier, value) pairs is accepted iff no identifier repeats and
-    the boolean settings (ENABLE_CONNECT_PROTOCOL, H3_DATAGRAM) carry 0 or 1; a frame longer
-    than 8 KiB is rejected before anything is read. *)
-Theorem C18_settings_rules :
-  (forall ps, Forall pair_ok ps ->
-     ((exists fr, settings_payload (enc_pairs ps) = inr fr) <-> (NoDup (map fst ps) /\ bools_valid ps))) /\
-  (forall (s : src) (l : Z), 8192 < l -> parse_settings s l = (inl ESettingsSize, s)).
-Proof. exact settings_rules. Qed.
-Print Assumptions C18_settings_rules.
 
 (** SETTINGS and GOAWAY through ParseNext, with their values: an accepted SETTINGS frame yields
     exactly MAX_FIELD_SECTION_SIZE (or -1), the two booleans, and the unknown settings in order;
@@ -254,6 +285,6 @@ Print Assumptions C18_example_settings.
 Example C18_example_goaway :
   fst (fst (parse_next 5 (mkSrc [7; 1; 4; 0] [1; 1; 1] EEOF false) None)) = inr (FGoaway 4) /\
   fst (fst (parse_next 5 (mkSrc [7; 2; 4; 0] [] EEOF false) None)) = inl EGoawayLen /\
-  fst (fst (parse_next 5 (mkSrc [4; 4; 6; 64; 200; 51] [] EEOF true) None)) = inl ETruncated.
+  fst (fst (parse_next 5 (mkSrc [4; 4; 6; 64; 200; 51] [] EEOF true) None)) = inl EEOF.
 Proof. vm_compute. auto. Qed.
 Print Assumptions C18_example_goaway.
